@@ -83,6 +83,7 @@ class Exec(object):
         before = w.snapshot()
         ubefore = w.usnapshot()
         errors = []
+        w.light = True
         for name in op["names"]:
             cid = self.fill_cid
             self.fill_cid += 1
@@ -94,6 +95,8 @@ class Exec(object):
                 if first is None:
                     first = st
             del w.conns[cid]
+        w.light = False
+        del w.steps[-4 * len(op["names"]):]
         st = w.begin(op)
         st.before, st.ubefore = before, ubefore
         st.errors = errors
